@@ -26,7 +26,7 @@ from __future__ import annotations
 import ast
 
 from ..repo import AnalysisError, own_nodes
-from .common import DISPATCHER, OBSERVER, falsy_object_tests, is_empty_list, is_notify, only_called_from, path_atoms, resolve_root
+from .common import DISPATCHER, OBSERVER, falsy_object_tests, opaque_dispatch, is_empty_list, is_notify, only_called_from, path_atoms, resolve_root
 from .c09 import state_write
 
 MANIFEST = {
@@ -164,6 +164,13 @@ def run(ctx):
     paths = eng.paths(dispatch, disp)
     n_ok = 0
     if not loops:
+        dyn = opaque_dispatch(ctx, disp)
+        if dyn:
+            m, n = dyn[0]
+            raise AnalysisError(
+                f"{m.loc(n)}: observers are notified through a dynamically looked-up hook (`{ast.unparse(n)[:60]}`); "
+                "which method runs is not decidable statically, so the notification rules are not evaluated"
+            )
         if not any(i["rule"] == "R10.a" and i["verdict"] != "holds" for i in chk.instances):
             chk.violation("R10.a", dispatch, None, "no notification loop found: accepted dispatches notify nobody")
     else:
